@@ -1,3 +1,435 @@
-(* C06/Proofs.v -- lemmas (placeholder, filled below) *)
-From Coq Require Import Reals List Bool.
-From Verif Require Import Base.Num Base.Vec C06.Syntax Gen.UfuncDeriv C06.Model.
+(* C06/Proofs.v -- soundness of Operator.derivative for every expression tree. *)
+From Coq Require Import Reals Lra Lia List Bool ZArith.
+From Verif Require Import Base.Num Base.Vec Base.VecR C06.Syntax Gen.UfuncDeriv C06.Model C06.Calc C06.Lin C06.Leaves.
+Import ListNotations.
+Local Open Scope R_scope.
+
+Lemma space_eqb_eq a b : space_eqb a b = true -> a = b.
+Proof.
+  destruct a, b; cbn; try discriminate; auto. intros H; apply Nat.eqb_eq in H; subst; reflexivity.
+Qed.
+
+Ltac bsplit := split; [|split; [|split]].
+Ltac ssplit := split; [|split; [|split; [|split; [|split]]]].
+Notation leafR := (@leaf R).
+Notation oexprR := (@oexpr R).
+
+(* weaker extensionality: only on arguments of the right length *)
+Lemma hdiff_ext_len n m F x L L' :
+  (forall d, length d = n -> L d = L' d) -> hdiff n m F x L -> hdiff n m F x L'.
+Proof.
+  intros HL H g d Hc. specialize (H g d Hc).
+  destruct Hc as (_ & Hd & _). rewrite <- (HL d Hd). exact H.
+Qed.
+Lemma blin_ext_len n m L L' :
+  (forall d, length d = n -> L d = L' d) -> blin n m L -> blin n m L'.
+Proof.
+  intros He (Hl & Ha & Hs & Hd). bsplit.
+  - intros d Hd'; rewrite <- He by exact Hd'; apply Hl; exact Hd'.
+  - intros a b Hx Hy. rewrite <- !He; auto. unfold vadd; apply vmap2_len; auto.
+  - intros c a Hx. rewrite <- !He; auto. rewrite vscal_len; exact Hx.
+  - intros y Hy g d Hc.
+    pose proof (Hd y Hy g d Hc) as H.
+    destruct Hc as (H0 & Hdl & Hgl & _).
+    rewrite <- (He d Hdl), <- (He y Hy).
+    eapply curve_ext; [|exact H]. intros t; apply He. apply Hgl.
+Qed.
+
+Section Sound.
+Variable af : nat -> Rvec -> Rvec.
+Variable ad : nat -> Rvec -> Rvec -> Rvec.
+Variable adm arn : nat -> space.
+Notation P := (PR af ad adm arn).
+
+(* what is assumed of user-defined leaves: their own derivative is right *)
+Hypothesis Habs : forall k x, length x = sdim (adm k) ->
+  hdiff (sdim (adm k)) (sdim (arn k)) (af k) x (ad k x) /\
+  blin (sdim (adm k)) (sdim (arn k)) (ad k x).
+
+(* ---------- regular points ---------- *)
+Definition lregular (l : leafR) (x : Rvec) : Prop :=
+  match l with
+  | LPow _ p => (p <= 0)%Z -> forall i, (i < length x)%nat -> nth i x 0 <> 0
+  | LUf f _ => forall i, (i < length x)%nat -> uregular f (nth i x 0)
+  | _ => True
+  end.
+Fixpoint regular (e : oexprR) (x : Rvec) : Prop :=
+  match e with
+  | OLeaf l => lregular l x
+  | OSum a b | OPProd a b => regular a x /\ regular b x
+  | OVecSum a _ | OLScal a _ | OLVec a _ | OFLVec a _ => regular a x
+  | OComp a b => regular b x /\ regular a (eval P b x)
+  | ORScal a s => regular a (vscal s x)
+  | ORVec a v => regular a (vmul v x)
+  end.
+
+(* ---------- leaves ---------- *)
+Lemma all_zero_zeros (c : Rvec) : all_zero c = true -> c = vconst (length c) 0.
+Proof.
+  induction c as [|u c IH]; [reflexivity|]. cbn [all_zero forallb]. intros H.
+  apply andb_prop in H as [Hu Hc]. numR. destruct (Reqb_spec u 0) as [->|]; [|discriminate].
+  cbn [length vconst repeat]. f_equal. apply IH. exact Hc.
+Qed.
+
+Lemma forallb_len (rows : list Rvec) n :
+  forallb (fun r => Nat.eqb (length r) n) rows = true -> forall r, In r rows -> length r = n.
+Proof. intros H r Hin. rewrite forallb_forall in H. apply Nat.eqb_eq. apply H; exact Hin. Qed.
+
+Lemma llin_blin l : llin l = true -> lwt P l = true ->
+  blin (sdim (ldom P l)) (sdim (lran P l)) (leval P l).
+Proof.
+  intros Hl Hw. destruct l; cbn [llin lwt ldom lran leval sdim] in *; try discriminate Hl.
+  - apply blin_scale.
+  - apply Nat.eqb_eq in Hw. apply blin_mulv. exact Hw.
+  - apply blin_mvec. apply forallb_len. exact Hw.
+  - apply blin_dot. reflexivity.
+  - apply blin_zero.
+  - apply Nat.eqb_eq in Hw. rewrite (all_zero_zeros c Hl), Hw. apply blin_zero.
+  - apply Z.eqb_eq in Hl. subst p.
+    apply (blin_ext _ _ (fun d => d)); [|apply blin_id].
+    intros d. cbn [leval]. rewrite (map_ext _ (fun a => a)) by (intros a; apply zpow_1). symmetry; apply map_id.
+  - destruct (ufunc_linear_scale af ad adm arn f Hl) as [c Hc].
+    apply (blin_ext _ _ (vscal c)); [|apply blin_scale].
+    intros d. cbn [leval]. unfold vscal. apply map_ext. intros a. rewrite Hc. reflexivity.
+  - apply Nat.eqb_eq in Hw. cbn [PR adom aran ader]. apply Habs. exact Hw.
+Qed.
+
+Lemma leval_len l y : lwt P l = true -> length y = sdim (ldom P l) ->
+  length (leval P l y) = sdim (lran P l).
+Proof.
+  intros Hw Hy. destruct l; cbn [lwt ldom lran leval sdim] in *; try reflexivity.
+  - rewrite vscal_len; exact Hy.
+  - apply Nat.eqb_eq in Hw. unfold vmul; apply vmap2_len; assumption.
+  - apply mvec_len.
+  - apply vconst_len.
+  - apply Nat.eqb_eq in Hw; exact Hw.
+  - rewrite map_length; exact Hy.
+  - rewrite map_length; exact Hy.
+  - cbn [PR afun adom aran] in *. destruct (Habs k y Hy) as [Hh _].
+    destruct (Hh (fun _ => y) _ (curve_const _ y Hy)) as (_ & _ & Hl & _). apply (Hl 0).
+  - apply Nat.eqb_eq in Hw. cbn [PR ader adom aran] in *.
+    destruct (Habs k x Hw) as [_ Hb]. apply (blin_len _ _ _ _ Hb). exact Hy.
+Qed.
+
+(* the bundle proved of every derivative object *)
+Definition sound (n m : nat) (sd sr : space) (F : Rvec -> Rvec) (x : Rvec) (D : oexprR) : Prop :=
+  hdiff n m F x (eval P D) /\ blin n m (eval P D) /\
+  is_lin D = true /\ wt P D = true /\ dom P D = sd /\ ran P D = sr.
+
+Lemma vscal_vmul_map c (d x : Rvec) (g : R -> R) :
+  vscal c (vmul d (map g x)) = vmul d (map (fun a => c * g a) x).
+Proof.
+  revert x; induction d as [|u d IH]; intros [|v x]; cbn [map vmul vmap2 vscal]; try reflexivity.
+  unfold vmul, vscal in *. rewrite IH. f_equal. numR. ring.
+Qed.
+
+Lemma lderiv_sound l x :
+  lwt P l = true -> length x = sdim (ldom P l) -> lderiv_ok P l x = true -> lregular l x ->
+  sound (sdim (ldom P l)) (sdim (lran P l)) (ldom P l) (lran P l) (leval P l) x (lderiv P l x).
+Proof.
+  intros Hw Hx Hok Hreg.
+  assert (Hself : llin l = true -> lderiv P l x = OLeaf l ->
+            sound (sdim (ldom P l)) (sdim (lran P l)) (ldom P l) (lran P l) (leval P l) x (lderiv P l x)).
+  { intros Hl ->. pose proof (llin_blin l Hl Hw) as Hb. unfold sound. cbn [eval is_lin wt dom ran].
+    ssplit; auto. apply (blin_hdiff _ _ _ _ Hb Hx). }
+  destruct l; try (apply Hself; [exact Hok || reflexivity|reflexivity]).
+  - (* LConst *)
+    cbn [lderiv ldom lran lwt leval] in *. apply Nat.eqb_eq in Hw.
+    unfold sound. cbn [eval leval is_lin llin wt lwt dom ran ldom lran].
+    ssplit; try reflexivity; [apply hdiff_const; exact Hw|apply blin_zero].
+  - (* LPow *)
+    cbn [lderiv ldom lran lwt leval mk_lscal lregular] in *.
+    unfold sound. cbn [eval leval is_lin llin wt lwt dom ran ldom lran].
+    assert (Hlen : length (map (fun a : R => zpow a (p - 1)) x) = sdim s) by (rewrite map_length; exact Hx).
+    ssplit; auto.
+    + apply (hdiff_ext_len _ _ _ _ (fun d => vmul d (map (fun a => IZR p * zpow a (p - 1)) x))).
+      { intros d _. symmetry. apply (vscal_vmul_map (IZR p) d x (fun a => zpow a (p - 1))). }
+      intros g d Hc. apply (curve_map _ (fun a => zpow a p) (fun a => IZR p * zpow a (p - 1))); [exact Hc|].
+      intros i Hi. destruct (Z_le_gt_dec p 0) as [Hp|Hp].
+      * apply zpow_deriv_nonpos; [exact Hp|]. apply Hreg; [exact Hp|lia].
+      * apply zpow_deriv_pos. lia.
+    + apply (blin_comp _ (sdim s)); [apply blin_mulv; exact Hlen|apply blin_scale].
+    + rewrite map_length. apply Nat.eqb_eq. exact Hx.
+  - (* LUf *)
+    cbn [lderiv lderiv_ok ldom lran lwt leval lregular sdim] in *.
+    destruct (ufunc_deriv f) as [e|] eqn:He.
+    + unfold sound. cbn [eval leval is_lin llin wt lwt dom ran ldom lran sdim].
+      assert (Hlen : length (map (ueval P e) x) = n) by (rewrite map_length; exact Hx).
+      ssplit; auto.
+      * intros g d Hc. apply (curve_map _ (usem P f) (ueval P e)); [exact Hc|].
+        intros i Hi. apply (ufunc_deriv_table_sound af ad adm arn f e He). apply Hreg. lia.
+      * apply blin_mulv; exact Hlen.
+      * apply Nat.eqb_eq. exact Hlen.
+    + apply Hself; [exact Hok|reflexivity].
+  - (* LNorm *)
+    cbn [lderiv lderiv_ok ldom lran lwt leval lregular sdim PR rt] in *.
+    unfold sound. cbn [eval leval is_lin llin wt lwt dom ran ldom lran sdim].
+    assert (Hpos : 0 < dot x x).
+    { apply sqrt_neq0_pos; [apply dot_self_nonneg|].
+      numR. destruct (Reqb_spec (sqrt (dot x x)) 0); [discriminate Hok|assumption]. }
+    ssplit; auto.
+    + intros g d Hc. apply (curve_norm n); assumption.
+    + apply blin_dot. rewrite map_length. exact Hx.
+    + rewrite map_length. f_equal. exact Hx.
+  - (* LDist *)
+    cbn [lderiv lderiv_ok ldom lran lwt leval lregular sdim PR rt] in *. unfold normsq in *.
+    unfold sound. cbn [eval leval is_lin llin wt lwt dom ran ldom lran sdim].
+    assert (Hpos : 0 < dot (vsub x v) (vsub x v)).
+    { apply sqrt_neq0_pos; [apply dot_self_nonneg|].
+      numR. destruct (Reqb_spec (sqrt (dot (vsub x v) (vsub x v))) 0); [discriminate Hok|assumption]. }
+    assert (Hsub : length (vsub x v) = length v) by (unfold vsub; apply vmap2_len; auto).
+    ssplit; auto.
+    + intros g d Hc.
+      apply (curve_norm (length v) (fun t => vsub (g t) v) (vsub x v) d); [|exact Hpos].
+      apply curve_sub_const; [exact Hc|reflexivity].
+    + apply blin_dot. rewrite map_length. exact Hsub.
+    + rewrite map_length. f_equal. exact Hsub.
+  - (* LAbs *)
+    cbn [lderiv ldom lran lwt leval PR afun adom aran] in *.
+    destruct (Habs k x Hx) as [Hh Hb].
+    unfold sound. cbn [eval leval is_lin llin wt lwt dom ran ldom lran PR ader adom aran].
+    ssplit; auto. apply Nat.eqb_eq. exact Hx.
+Qed.
+
+(* ---------- expressions ---------- *)
+Lemma mk_lscal_eval s D d : eval P (mk_lscal s D) d = vscal s (eval P D d).
+Proof. destruct D; cbn [mk_lscal eval]; try reflexivity. rewrite vscal_vscal. reflexivity. Qed.
+Lemma mk_lscal_lin s D : is_lin (mk_lscal s D) = is_lin D.
+Proof. destruct D; reflexivity. Qed.
+Lemma mk_lscal_wt s D : wt P (mk_lscal s D) = wt P D.
+Proof. destruct D; reflexivity. Qed.
+Lemma mk_lscal_dom s D : dom P (mk_lscal s D) = dom P D.
+Proof. destruct D; reflexivity. Qed.
+Lemma mk_lscal_ran s D : ran P (mk_lscal s D) = ran P D.
+Proof. destruct D; reflexivity. Qed.
+
+Lemma eval_len e : wt P e = true -> forall y, length y = sdim (dom P e) ->
+  length (eval P e y) = sdim (ran P e).
+Proof.
+  induction e as [l|a IHa b IHb|a IHa v|a IHa b IHb|a IHa b IHb|a IHa s|a IHa s|a IHa v|a IHa v|a IHa v];
+    cbn [wt dom ran eval]; intros Hw y Hy.
+  - apply leval_len; assumption.
+  - apply andb_prop in Hw as [Hw Hr]. apply andb_prop in Hw as [Hw Hd]. apply andb_prop in Hw as [Ha Hb].
+    apply space_eqb_eq in Hr, Hd. unfold vadd. apply vmap2_len; [apply IHa; auto|rewrite Hr; apply IHb; auto; rewrite <- Hd; auto].
+  - apply andb_prop in Hw as [Ha Hr]. apply space_eqb_eq in Hr.
+    unfold vadd. apply vmap2_len; [apply IHa; auto|rewrite Hr; reflexivity].
+  - apply andb_prop in Hw as [Hw Hr]. apply andb_prop in Hw as [Ha Hb]. apply space_eqb_eq in Hr.
+    apply IHa; auto. rewrite <- Hr. apply IHb; auto.
+  - apply andb_prop in Hw as [Hw Hr]. apply andb_prop in Hw as [Hw Hd]. apply andb_prop in Hw as [Ha Hb].
+    apply space_eqb_eq in Hr, Hd. unfold vmul. apply vmap2_len; [apply IHa; auto|rewrite Hr; apply IHb; auto; rewrite <- Hd; auto].
+  - rewrite vscal_len. apply IHa; auto.
+  - apply IHa; auto. rewrite vscal_len; auto.
+  - apply andb_prop in Hw as [Ha Hr]. apply space_eqb_eq in Hr.
+    unfold vmul. apply vmap2_len; [apply IHa; auto|rewrite Hr; reflexivity].
+  - apply andb_prop in Hw as [Ha Hr]. apply space_eqb_eq in Hr.
+    apply IHa; auto. unfold vmul. apply vmap2_len; [exact Hy|rewrite Hr; reflexivity].
+  - rewrite vscal_len. reflexivity.
+Qed.
+
+(* "linear => self" is justified: a flagged-linear well-typed tree IS a bounded linear map *)
+Lemma lin_blin e : is_lin e = true -> wt P e = true ->
+  blin (sdim (dom P e)) (sdim (ran P e)) (eval P e).
+Proof.
+  induction e as [l|a IHa b IHb|a IHa v|a IHa b IHb|a IHa b IHb|a IHa s|a IHa s|a IHa v|a IHa v|a IHa v];
+    cbn [is_lin wt dom ran eval]; intros Hl Hw; try discriminate Hl.
+  - apply llin_blin; assumption.
+  - apply andb_prop in Hl as [La Lb].
+    apply andb_prop in Hw as [Hw Hr]. apply andb_prop in Hw as [Hw Hd]. apply andb_prop in Hw as [Ha Hb].
+    apply space_eqb_eq in Hr, Hd. apply blin_add; [apply IHa; auto|rewrite Hr, Hd; apply IHb; auto].
+  - apply andb_prop in Hl as [La Lb].
+    apply andb_prop in Hw as [Hw Hr]. apply andb_prop in Hw as [Ha Hb]. apply space_eqb_eq in Hr.
+    apply (blin_comp _ (sdim (ran P b)) _ (eval P a) (eval P b)); [apply IHb; auto|rewrite Hr; apply IHa; auto].
+  - apply (blin_comp _ (sdim (ran P a)) _ (vscal s) (eval P a)); [apply IHa; auto|apply blin_scale].
+  - apply (blin_comp _ (sdim (dom P a)) _ (eval P a) (vscal s)); [apply blin_scale|apply IHa; auto].
+  - apply andb_prop in Hw as [Ha Hr]. apply space_eqb_eq in Hr.
+    apply (blin_comp _ (sdim (ran P a)) _ (fun y => vmul y v) (eval P a)); [apply IHa; auto|apply blin_mulv; rewrite Hr; reflexivity].
+  - apply andb_prop in Hw as [Ha Hr]. apply space_eqb_eq in Hr.
+    apply (blin_comp _ (sdim (dom P a)) _ (eval P a) (fun y => vmul y v)); [apply blin_mulv; rewrite Hr; reflexivity|apply IHa; auto].
+  - apply andb_prop in Hw as [Ha Hr]. apply space_eqb_eq in Hr.
+    apply (blin_comp _ 1%nat _ (fun y => vscal (hd 0 y) v) (eval P a)); [rewrite Hr in IHa; apply IHa; auto|apply blin_outer; reflexivity].
+Qed.
+
+Lemma lin_sound e x : is_lin e = true -> wt P e = true -> length x = sdim (dom P e) ->
+  sound (sdim (dom P e)) (sdim (ran P e)) (dom P e) (ran P e) (eval P e) x e.
+Proof.
+  intros Hl Hw Hx. pose proof (lin_blin e Hl Hw) as Hb.
+  unfold sound. ssplit; auto. apply (blin_hdiff _ _ _ _ Hb Hx).
+Qed.
+
+(* y * D for a value y of the common range *)
+Lemma mk_lmul_sound r y D n :
+  blin n (sdim r) (eval P D) -> is_lin D = true -> wt P D = true -> ran P D = r -> length y = sdim r ->
+  (forall d, length d = n -> eval P (mk_lmul r y D) d = vmul (eval P D d) y) /\
+  is_lin (mk_lmul r y D) = true /\ wt P (mk_lmul r y D) = true /\
+  dom P (mk_lmul r y D) = dom P D /\ ran P (mk_lmul r y D) = r.
+Proof.
+  intros Hb Hl Hw Hr Hy. destruct r as [|k]; cbn [mk_lmul sdim] in *.
+  - rewrite mk_lscal_lin, mk_lscal_wt, mk_lscal_dom, mk_lscal_ran. repeat split; auto.
+    intros d Hd. rewrite mk_lscal_eval.
+    pose proof (blin_len _ _ _ d Hb Hd) as Hlen.
+    destruct (eval P D d) as [|u [|? ?]]; cbn in Hlen; try lia.
+    destruct y as [|w [|? ?]]; cbn in Hy; try lia.
+    cbn. numR. f_equal. ring.
+  - cbn [eval is_lin wt dom ran]. repeat split; auto.
+    rewrite Hw, Hr. cbn. rewrite Hy. apply Nat.eqb_refl.
+Qed.
+
+Theorem deriv_sound e : forall x,
+  wt P e = true -> length x = sdim (dom P e) -> deriv_ok P e x = true -> regular e x ->
+  sound (sdim (dom P e)) (sdim (ran P e)) (dom P e) (ran P e) (eval P e) x (derivative P e x).
+Proof.
+  induction e as [l|a IHa b IHb|a IHa v|a IHa b IHb|a IHa b IHb|a IHa s|a IHa s|a IHa v|a IHa v|a IHa v];
+    intros x Hw Hx Hok Hreg.
+  - (* leaf *) apply lderiv_sound; assumption.
+  - (* OSum *)
+    cbn [derivative deriv_ok regular] in *.
+    destruct (is_lin a && is_lin b) eqn:Hl.
+    { apply lin_sound; auto. }
+    cbn [orb] in Hok. apply andb_prop in Hok as [Oa Ob]. destruct Hreg as [Ra Rb].
+    cbn [wt dom ran eval] in *.
+    apply andb_prop in Hw as [Hw Hr]. apply andb_prop in Hw as [Hw Hd]. apply andb_prop in Hw as [Wa Wb].
+    apply space_eqb_eq in Hr, Hd.
+    destruct (IHa x Wa Hx Oa Ra) as (A1 & A2 & A3 & A4 & A5 & A6).
+    assert (Hxb : length x = sdim (dom P b)) by (rewrite <- Hd; exact Hx).
+    destruct (IHb x Wb Hxb Ob Rb) as (B1 & B2 & B3 & B4 & B5 & B6).
+    rewrite <- Hd, <- Hr in B1, B2.
+    unfold sound. cbn [eval is_lin wt dom ran]. ssplit.
+    + apply hdiff_add; assumption.
+    + apply blin_add; assumption.
+    + rewrite A3, B3; reflexivity.
+    + rewrite A4, B4, A5, B5, A6, B6, Hd, Hr. cbn.
+      destruct (dom P b), (ran P b); cbn; rewrite ?Nat.eqb_refl; reflexivity.
+    + exact A5.
+    + exact A6.
+  - (* OVecSum *)
+    cbn [derivative deriv_ok regular wt dom ran eval] in *.
+    apply andb_prop in Hw as [Wa Hr]. apply space_eqb_eq in Hr.
+    destruct (IHa x Wa Hx Hok Hreg) as (A1 & A2 & A3 & A4 & A5 & A6).
+    unfold sound. ssplit; auto.
+    apply hdiff_add_const; [exact A1|rewrite Hr; reflexivity].
+  - (* OComp *)
+    cbn [derivative deriv_ok regular] in *.
+    destruct (is_lin a && is_lin b) eqn:Hl.
+    { apply lin_sound; auto. }
+    cbn [orb] in Hok. apply andb_prop in Hok as [Oa Ob]. destruct Hreg as [Rb Ra].
+    cbn [wt dom ran eval] in *.
+    apply andb_prop in Hw as [Hw Hr]. apply andb_prop in Hw as [Wa Wb]. apply space_eqb_eq in Hr.
+    destruct (IHb x Wb Hx Ob Rb) as (B1 & B2 & B3 & B4 & B5 & B6).
+    assert (Hy : length (eval P b x) = sdim (dom P a)) by (rewrite <- Hr; apply eval_len; auto).
+    assert (HA : sound (sdim (dom P a)) (sdim (ran P a)) (dom P a) (ran P a) (eval P a) (eval P b x)
+                   (if is_lin a then a else derivative P a (eval P b x))).
+    { destruct (is_lin a) eqn:La.
+      - apply lin_sound; auto.
+      - cbn [orb] in Oa. apply IHa; auto. }
+    destruct HA as (A1 & A2 & A3 & A4 & A5 & A6).
+    rewrite Hr in B1, B2.
+    unfold sound. cbn [eval is_lin wt dom ran]. ssplit.
+    + apply (hdiff_comp _ (sdim (dom P a))); assumption.
+    + apply (blin_comp _ (sdim (dom P a)) _ (eval P (if is_lin a then a else derivative P a (eval P b x))) (eval P (derivative P b x))); assumption.
+    + rewrite A3, B3; reflexivity.
+    + rewrite A4, B4, A5, B6, Hr. cbn. destruct (dom P a); cbn; rewrite ?Nat.eqb_refl; reflexivity.
+    + exact B5.
+    + exact A6.
+  - (* OPProd *)
+    cbn [derivative deriv_ok regular wt dom ran eval] in *.
+    apply andb_prop in Hok as [Oa Ob]. destruct Hreg as [Ra Rb].
+    apply andb_prop in Hw as [Hw Hr]. apply andb_prop in Hw as [Hw Hd]. apply andb_prop in Hw as [Wa Wb].
+    apply space_eqb_eq in Hr, Hd.
+    destruct (IHa x Wa Hx Oa Ra) as (A1 & A2 & A3 & A4 & A5 & A6).
+    assert (Hxb : length x = sdim (dom P b)) by (rewrite <- Hd; exact Hx).
+    destruct (IHb x Wb Hxb Ob Rb) as (B1 & B2 & B3 & B4 & B5 & B6).
+    rewrite <- Hd, <- Hr in B1, B2. rewrite <- Hr in B6. rewrite <- Hd in B5.
+    assert (Hya : length (eval P a x) = sdim (ran P a)) by (apply eval_len; auto).
+    assert (Hyb : length (eval P b x) = sdim (ran P a)) by (rewrite Hr; apply eval_len; auto).
+    destruct (mk_lmul_sound (ran P a) (eval P b x) (derivative P a x) _ A2 A3 A4 A6 Hyb)
+      as (L1 & L2 & L3 & L4 & L5).
+    destruct (mk_lmul_sound (ran P a) (eval P a x) (derivative P b x) _ B2 B3 B4 B6 Hya)
+      as (M1 & M2 & M3 & M4 & M5).
+    unfold sound. cbn [eval is_lin wt dom ran]. ssplit.
+    + apply (hdiff_ext_len _ _ _ _
+               (fun d => vadd (vmul (eval P (derivative P a x) d) (eval P b x))
+                              (vmul (eval P (derivative P b x) d) (eval P a x)))).
+      { intros d Hd'. rewrite L1, M1 by exact Hd'. reflexivity. }
+      apply hdiff_mul; assumption.
+    + apply (blin_ext_len _ _
+               (fun d => vadd (vmul (eval P (derivative P a x) d) (eval P b x))
+                              (vmul (eval P (derivative P b x) d) (eval P a x)))).
+      { intros d Hd'. rewrite L1, M1 by exact Hd'. reflexivity. }
+      apply blin_add.
+      * apply (blin_comp _ (sdim (ran P a)) _ (fun y => vmul y (eval P b x)) (eval P (derivative P a x))); [exact A2|apply blin_mulv; exact Hyb].
+      * apply (blin_comp _ (sdim (ran P a)) _ (fun y => vmul y (eval P a x)) (eval P (derivative P b x))); [exact B2|apply blin_mulv; exact Hya].
+    + rewrite L2, M2; reflexivity.
+    + rewrite L3, M3, L4, M4, L5, M5, A5, B5. cbn.
+      destruct (dom P a), (ran P a); cbn; rewrite ?Nat.eqb_refl; reflexivity.
+    + rewrite L4; exact A5.
+    + exact L5.
+  - (* OLScal *)
+    cbn [derivative deriv_ok regular] in *.
+    destruct (is_lin a) eqn:La.
+    { apply lin_sound; auto. }
+    cbn [orb wt dom ran eval] in *.
+    destruct (IHa x Hw Hx Hok Hreg) as (A1 & A2 & A3 & A4 & A5 & A6).
+    unfold sound. rewrite mk_lscal_lin, mk_lscal_wt, mk_lscal_dom, mk_lscal_ran. ssplit; auto.
+    + apply (hdiff_ext_len _ _ _ _ (fun d => vscal s (eval P (derivative P a x) d))).
+      { intros d _. symmetry; apply mk_lscal_eval. }
+      apply hdiff_scal. exact A1.
+    + apply (blin_ext _ _ (fun d => vscal s (eval P (derivative P a x) d))).
+      { intros d. symmetry; apply mk_lscal_eval. }
+      apply (blin_comp _ (sdim (ran P a)) _ (vscal s) (eval P (derivative P a x))); [exact A2|apply blin_scale].
+  - (* ORScal *)
+    cbn [derivative deriv_ok regular wt dom ran eval] in *.
+    assert (Hsx : length (vscal s x) = sdim (dom P a)) by (rewrite vscal_len; exact Hx).
+    destruct (IHa (vscal s x) Hw Hsx Hok Hreg) as (A1 & A2 & A3 & A4 & A5 & A6).
+    unfold sound. rewrite mk_lscal_lin, mk_lscal_wt, mk_lscal_dom, mk_lscal_ran. ssplit; auto.
+    + apply (hdiff_ext_len _ _ _ _ (fun d => eval P (derivative P a (vscal s x)) (vscal s d))).
+      { intros d Hd. rewrite mk_lscal_eval. destruct A2 as (_ & _ & Hs & _). apply Hs. exact Hd. }
+      apply (hdiff_comp _ (sdim (dom P a)) _ (eval P a) (vscal s) x); [|exact A1].
+      apply (blin_hdiff _ _ _ _ (blin_scale _ s) Hx).
+    + apply (blin_ext _ _ (fun d => vscal s (eval P (derivative P a (vscal s x)) d))).
+      { intros d. symmetry; apply mk_lscal_eval. }
+      apply (blin_comp _ (sdim (ran P a)) _ (vscal s) (eval P (derivative P a (vscal s x)))); [exact A2|apply blin_scale].
+  - (* OLVec *)
+    cbn [derivative deriv_ok regular] in *.
+    destruct (is_lin a) eqn:La.
+    { apply lin_sound; auto. }
+    cbn [orb wt dom ran eval] in *.
+    apply andb_prop in Hw as [Wa Hr]. apply space_eqb_eq in Hr.
+    destruct (IHa x Wa Hx Hok Hreg) as (A1 & A2 & A3 & A4 & A5 & A6).
+    unfold sound. cbn [eval is_lin wt dom ran]. ssplit; auto.
+    + apply hdiff_mul_const; [exact A1|rewrite Hr; reflexivity].
+    + apply (blin_comp _ (sdim (ran P a)) _ (fun y => vmul y v) (eval P (derivative P a x))); [exact A2|apply blin_mulv; rewrite Hr; reflexivity].
+    + rewrite A4, A6, Hr. cbn. apply Nat.eqb_refl.
+  - (* ORVec *)
+    cbn [derivative deriv_ok regular] in *.
+    destruct (is_lin a) eqn:La.
+    { apply lin_sound; auto. }
+    cbn [orb wt dom ran eval] in *.
+    apply andb_prop in Hw as [Wa Hr]. apply space_eqb_eq in Hr.
+    assert (Hvx : length (vmul v x) = sdim (dom P a)).
+    { unfold vmul. apply vmap2_len; [rewrite Hr; reflexivity|exact Hx]. }
+    destruct (IHa (vmul v x) Wa Hvx Hok Hreg) as (A1 & A2 & A3 & A4 & A5 & A6).
+    assert (Hv : length v = sdim (dom P a)) by (rewrite Hr; reflexivity).
+    unfold sound. cbn [eval is_lin wt dom ran]. ssplit; auto.
+    + apply (hdiff_comp _ (sdim (dom P a)) _ (eval P a) (fun y => vmul y v) x).
+      * apply (blin_hdiff _ _ _ _ (blin_mulv _ v Hv) Hx).
+      * cbn beta. rewrite (vmul_comm x v). exact A1.
+    + apply (blin_comp _ (sdim (dom P a)) _ (eval P (derivative P a (vmul v x))) (fun y => vmul y v)); [apply blin_mulv; exact Hv|exact A2].
+    + rewrite A4, A5, Hr. cbn. apply Nat.eqb_refl.
+  - (* OFLVec *)
+    cbn [derivative deriv_ok regular] in *.
+    destruct (is_lin a) eqn:La.
+    { apply lin_sound; auto. }
+    cbn [orb wt dom ran eval] in *.
+    apply andb_prop in Hw as [Wa Hr]. apply space_eqb_eq in Hr.
+    destruct (IHa x Wa Hx Hok Hreg) as (A1 & A2 & A3 & A4 & A5 & A6).
+    rewrite Hr in A1, A2. cbn [sdim] in A1, A2.
+    unfold sound. cbn [eval is_lin wt dom ran sdim]. ssplit; auto.
+    + apply (hdiff_comp _ 1%nat _ (fun y => vscal (hd 0 y) v) (eval P a) x
+               (fun y => vscal (hd 0 y) v) (eval P (derivative P a x))); [exact A1|].
+      apply (blin_hdiff _ _ _ _ (blin_outer _ v eq_refl)).
+      pose proof (eval_len a Wa x Hx) as Hl. rewrite Hr in Hl. exact Hl.
+    + apply (blin_comp _ 1%nat _ (fun y => vscal (hd 0 y) v) (eval P (derivative P a x))); [exact A2|apply blin_outer; reflexivity].
+    + rewrite A4, A6, Hr. reflexivity.
+Qed.
+
+End Sound.
